@@ -22,6 +22,7 @@ EXPLANATION = (
     "separator constants. NOT decided: byte-exact output for given handlers.")
 
 RULES = {
+    "C06-XC": "(thorough) decision tables of the configuration-independent functions of this property are identical in every build configuration",
     "C06-F1": "item writers: delimiter before the first data write on every path; every path that wrote data leaves output_count incremented",
     "C06-F1b": "the ',' write is guarded by output_count > 0; the block data call counts the item exactly when remaining reaches 0 on every non-error path",
     "C06-F2": "no unit separator ';' is written on a path that afterwards reaches the handler invocation",
@@ -170,18 +171,12 @@ def rule_f1b(ck, prog, S):
     for n, c in enumerate(K.ordinal_sites(calls)):
         st = K.site(wd, "comma", n)
         facts = K.facts_at(S, wd, c) or []
-        ok = False
+        ocp = None
         for atom, pol in facts:
-            if isinstance(pol, tuple):
-                continue
-            if atom.k == "BinaryOperator" and atom.get("op") in (">", ">=", "!="):
-                l = atom.child(0).strip_all_casts()
-                r = C.const_of(atom.child(1))
-                if (l.get("path") or "").endswith("->output_count") and pol and \
-                        ((atom["op"] == ">" and r == 0) or (atom["op"] == ">=" and r == 1) or (atom["op"] == "!=" and r == 0)):
-                    ok = True
-            if atom.get("path", "").endswith("->output_count") and pol is True:
-                ok = True
+            for x in atom.walk():
+                if (x.get("path") or "").endswith("->output_count"):
+                    ocp = x["path"]
+        ok = ocp is not None and (K.holds_rel(facts, ocp, ">", 0) or K.holds_rel(facts, ocp, "!=", 0))
         if ok:
             ck.holds("C06-F1b", st, K.loc(wd, c), "',' only when an item of this unit was already written")
         else:
@@ -305,13 +300,13 @@ def fresh_unit_state(ck, prog, S, rule, select, message):
         return
     proc, parse, find = got
     summ = {"findCommandHeader": X.return_stores(find)}
-    pgp, stp = X.must_stored(parse, reset_calls=("scpiParser_detectProgramMessageUnit",), callee_summaries=summ)
+    pgp, stp = X.must_stored(parse, reset_calls=("scpiParser_detectProgramMessageUnit",), callee_summaries=summ, prog=prog)
     pcs = list(parse.calls("processCommand"))
     if not pcs:
         ck.anchor_lost(rule, "processCommand call")
         return
     s1 = stp.get(pgp.before(pcs[0]), frozenset())
-    pgc, stc = X.must_stored(proc)
+    pgc, stc = X.must_stored(proc, prog=prog)
     al, resolve = X.aliases(proc)
     seen = set()
     k = 0
@@ -445,6 +440,8 @@ def run(ck, fb, tier):
         rule_f6(ck, prog, S)
         rule_f3_f4(ck, prog, S)
     ck.assume("handlers emit results only through the SCPI_Result* API")
+    if tier == "thorough":
+        K.cross_config(ck, fb, "C06-XC", ['processCommand', 'writeDelimiter', 'writeNewLine', 'SCPI_ResultArbitraryBlockData', 'SCPI_ResultText'])
 
 
 TECHNIQUE = ("static analysis: may-state dataflow (delimited, wrote, counted) with bottom-up callee effect summaries, "
